@@ -71,9 +71,10 @@ def worker(job):
             # vacuity guard: some path that reaches an exit must have a satisfiable hypothesis set (probed by shard 0 until
             # three such paths are found; probing every path would cost more than the proof itself)
             feas = 'not-probed'
-            if shard == 0 and out['feasible_paths'] < 3 and pr.obligations and pr.outcome and pr.outcome[0] in ('normal', 'raise'):
-                longest = max(pr.obligations, key=lambda o: len(o.hyps))
-                feas = hyps_consistent(longest)
+            if shard == 0 and out['feasible_paths'] < 3 and pr.outcome and pr.outcome[0] in ('normal', 'raise'):
+                class _P:
+                    hyps = getattr(pr, 'final_pc', None) or (max(pr.obligations, key=lambda o: len(o.hyps)).hyps if pr.obligations else [])
+                feas = hyps_consistent(_P)
                 if feas != 'unsat':
                     out['feasible_paths'] += 1
             for ob in pr.obligations:
